@@ -438,3 +438,17 @@ pub fn norm_loc(loc: &str) -> String {
     }
     loc.to_string()
 }
+
+/// `catch_unwind` for harness-made calls outside `observe`: activates the fuse while `f` runs (if
+/// a fault is armed) and lets an injected fault propagate to the fault driver.
+pub fn fcall<R>(armed: bool, f: impl FnOnce() -> R) -> std::thread::Result<R> {
+    if armed {
+        fuse_set_active(true);
+    }
+    let r = std::panic::catch_unwind(std::panic::AssertUnwindSafe(f));
+    fuse_set_active(false);
+    match r {
+        Err(p) if p.is::<FuseMarker>() => std::panic::resume_unwind(p),
+        other => other,
+    }
+}
